@@ -21,6 +21,8 @@ pub enum TransactionError {
     WriteWriteConflict(TransactionId, LogicalId),
     /// A concurrent transaction that committed first inserted the same key into a unique index.
     UniqueKeyTaken(TransactionId, ObjectId),
+    /// The name is held in the catalog's name index by a transaction this one does not see.
+    NameHeld(TransactionId, String, TransactionId),
     NotFound(TransactionId),
     TupleNotVisible(TransactionId, LogicalId),
     TransactionAlreadyStarted,
@@ -43,6 +45,11 @@ impl Display for TransactionError {
                 f,
                 "UNIQUE constraint violated: transaction {} and a transaction that committed meanwhile inserted the same key into index {}",
                 txid, index
+            ),
+            Self::NameHeld(txid, name, holder) => write!(
+                f,
+                "Transaction {} conflict on relation name '{}': transaction {} created it and is still open or committed after this transaction began",
+                txid, name, holder
             ),
             Self::WriteWriteConflict(txid, tuple) => {
                 write!(f, "Transaction {} conflict on tuple {}", txid, tuple)
@@ -497,6 +504,15 @@ impl TransactionCoordinator {
         // Persist aborted state to page zero for crash recovery
         self.pager.write().mark_transaction_aborted(txid);
         Ok(())
+    }
+
+    /// Whether the transaction is known to the coordinator and has not been aborted: still running,
+    /// committing or committed (a forgotten transaction is neither).
+    pub fn is_live_or_committed(&self, txid: TransactionId) -> bool {
+        self.transactions
+            .read()
+            .get(&txid)
+            .is_some_and(|entry| entry.state != TransactionState::Aborted)
     }
 
     /// Whether the transaction is still running: known to the coordinator and neither
